@@ -12,10 +12,14 @@ open Gossamer Gossamer.C03
 def step (line : String) : String :=
   let ops := parseLine line
   let H := Blake2b.hash256
-  let m := C02.joinWith ";" (run H false ops)
+  let guardOK := !violatesGuard H St.init ops
+  -- the side condition of the hash clause of `C03_isolated` must hold on every guarded run: if it
+  -- ever failed the model output is marked, which the differential run reports as a violation
+  let mark := if guardOK && rootsNested H St.init ops then "#roots-nested" else ""
+  let m := C02.joinWith ";" (run H false ops) ++ mark
   let s := C02.joinWith ";" (run H true ops)
   if m == s then m
   else m ++ "\tspec=" ++ s ++
-    (if violatesGuard H St.init ops then "\tkf=parent-write-after-snapshot" else "")
+    (if !guardOK then "\tkf=parent-write-after-snapshot" else "")
 
 def main : IO Unit := runDriver step
